@@ -78,8 +78,6 @@ class LFDA(MahalanobisMixin, TransformerMixin):
 
   def __init__(self, n_components=None,
                k=None, embedding_type='weighted', preprocessor=None):
-    if embedding_type not in ('weighted', 'orthonormalized', 'plain'):
-      raise ValueError('Invalid embedding_type: %r' % embedding_type)
     self.n_components = n_components
     self.embedding_type = embedding_type
     self.k = k
@@ -96,6 +94,9 @@ class LFDA(MahalanobisMixin, TransformerMixin):
     y : (n,) array-like
         Class labels, one per point of data.
     '''
+    if (not isinstance(self.embedding_type, str) or self.embedding_type
+            not in ('weighted', 'orthonormalized', 'plain')):
+      raise ValueError('Invalid embedding_type: %r' % (self.embedding_type,))
     X, y = self._prepare_inputs(X, y, ensure_min_samples=2)
     unique_classes, y = np.unique(y, return_inverse=True)
     n, d = X.shape
